@@ -110,8 +110,50 @@ func judgeC05(c *Cfg, sc *scen.Scenario, ref []string, o *scen.Outcome, record b
 	return fs
 }
 
+// runC05TripAtCheck: the cancellation arrives right after one of the library's own context checks. With a retry
+// wait configured the wait itself must notice it: no further exec attempt may start, and the cut-short run must
+// report the context's error.
+func runC05TripAtCheck(c *Cfg) {
+	r := c.Rep
+	n := c.Pick(200, 3000)
+	parallel(c, n, func(i int) {
+		rg := c.Rng("c05trip", i)
+		kinds := []int{scen.KBase, scen.KBaseFB, scen.KPlainRetry, scen.KPlainRetryFB, scen.KFnOptRes, scen.KFnOptAny, scen.KFnBldRes, scen.KFnBldAny, scen.KFnMixed}
+		ns := scen.NodeSpec{Kind: kinds[rg.IntN(len(kinds))], N: 2 + rg.IntN(3), WaitMs: 1 + rg.IntN(3), HasFB: rg.IntN(2) == 0}
+		ns.Visits = []scen.Visit{{FirstOK: 2 + rg.IntN(ns.N), Post: "go"}}
+		base := &scen.Scenario{Nodes: []scen.NodeSpec{ns}, Root: 0, Runs: 1}
+		refOut := scen.NewExec(base).RunOnce()
+		ref := keysOf(refOut.Events)
+		r.EvalN(1)
+		for k := 1; k <= 3*len(ref)+3; k++ {
+			v := base.Clone()
+			v.Inject = scen.Inject{Kind: "trip-at-check", At: k}
+			o := scen.NewExec(v).RunOnce()
+			r.EvalN(1)
+			if o.CancelSeq < 0 {
+				break // fewer than k checks were made
+			}
+			r.Count("inject.trip-at-check", 1)
+			for _, e := range o.Events {
+				if e.Phase == "exec" && e.Attempt >= 2 && e.Seq >= o.CancelSeq && e.CtxDone {
+					r.Violate("C05", "C05:retry-attempt-after-cancel-before-wait", fmt.Sprintf("the context was cancelled right after the library's context check #%d (before the %d ms retry wait); the wait did not notice it and exec attempt %d was started with the context already done", k, ns.WaitMs, e.Attempt), ScenCase{"trip-at-check", v})
+					break
+				}
+			}
+			got := keysOf(o.Events)
+			if len(got) < len(ref) && o.ErrNil {
+				r.Violate("C05", "C05:cut-short-success:trip-at-check", fmt.Sprintf("run was cut short by a cancellation arriving after context check #%d (%d of %d callbacks ran) but reported success", k, len(got), len(ref)), ScenCase{"trip-at-check", v})
+			} else if len(got) < len(ref) && !strings.Contains(o.ErrID, "ctx") {
+				r.Violate("C05", "C05:cut-short-error-not-ctx:trip-at-check", fmt.Sprintf("run was cut short by a cancellation arriving after context check #%d but its error %q does not match the context's error", k, o.ErrText), ScenCase{"trip-at-check", v})
+			}
+			r.Nontrivial(fmt.Sprintf("trip %s @%d", scenSig(base), k))
+		}
+	})
+}
+
 func runC05(c *Cfg) {
 	r := c.Rep
+	defer runC05TripAtCheck(c)
 	nb := c.Pick(2000, 30000)
 	parallel(c, nb, func(i int) {
 		rg := c.Rng("c05", i)
@@ -192,6 +234,18 @@ func replayC05(c *Cfg, spec json.RawMessage) {
 	var cs ScenCase
 	if err := json.Unmarshal(spec, &cs); err != nil || cs.Scenario == nil {
 		fmt.Println("cannot parse case:", err)
+		return
+	}
+	if cs.Scenario.Inject.Kind == "trip-at-check" {
+		o := scen.NewExec(cs.Scenario).RunOnce()
+		fmt.Printf("inject %+v\nobserved: action=%q errNil=%v err=%q matches=%q next-callback-ordinal-at-trip=%d\n", cs.Scenario.Inject, o.Action, o.ErrNil, o.ErrText, o.ErrID, o.CancelSeq)
+		for _, e := range o.Events {
+			b, _ := json.Marshal(e)
+			fmt.Println("   ", string(b))
+			if e.Phase == "exec" && e.Attempt >= 2 && e.Seq >= o.CancelSeq && e.CtxDone && o.CancelSeq >= 0 {
+				c.Rep.Violate("C05", "C05:retry-attempt-after-cancel-before-wait", "exec attempt started with the context already done", cs)
+			}
+		}
 		return
 	}
 	base := cs.Scenario.Clone()
